@@ -21,7 +21,38 @@ RULE = (
     "(programs, schedule)."
 )
 
-KINDS = ["grad1", "nested", "fwd_rev", "rev_fwd", "hvp", "jacobian", "nested3", "nested_jvp", "nested_twice", "two_calls"]
+KINDS = ["grad1", "nested", "fwd_rev", "rev_fwd", "hvp", "jacobian", "nested3", "nested_jvp", "nested_twice", "two_calls",
+         "shared_tjp", "shared_hvp_twice", "shared_grad"]
+
+_TLS = __import__("threading").local()
+_SHARED = {}
+
+
+def shared_ops():
+    """Differential-operator objects built ONCE and used by every thread (e.g. a module-level `hvp = hessian_vector_product(f)`)."""
+    if not _SHARED:
+        import autograd
+        import autograd.numpy as anp
+        from autograd import differential_operators as do
+
+        def f(x, c=1.0):
+            s = _TLS.s
+            s.enter(); s.yp()
+            y = anp.sin(x) * c + x * x
+            s.yp(); s.leave()
+            return y
+
+        def fs(x, c=1.0):
+            s = _TLS.s
+            s.enter(); s.yp()
+            y = anp.sum(anp.sin(x) * c + x ** 3)
+            s.yp(); s.leave()
+            return y
+
+        _SHARED.update(tjp=do.tensor_jacobian_product(f), hvp=autograd.hessian_vector_product(fs), grad=autograd.grad(fs),
+                       vag=autograd.value_and_grad(fs), jac=autograd.jacobian(f))
+    return _SHARED
+
 
 
 def make_prog(kind, a):
@@ -101,6 +132,28 @@ def make_prog(kind, a):
             r2 = autograd.grad(f)(0.9 + a)
             s.yp()
             return conv(onp.array([r1, r2]))
+    elif kind in ("shared_tjp", "shared_hvp_twice", "shared_grad"):
+        def prog(s):
+            ops = shared_ops()
+            _TLS.s = s
+            x0 = onp.array([0.2, -0.4, 0.6, 1.1]) * (1.0 + a)
+            v = onp.array([1.0, 0.5, -1.0, 2.0]) * (0.5 + a)
+            if kind == "shared_tjp":
+                r1 = ops["tjp"](x0, v)
+                s.yp()
+                r2 = ops["jac"](x0)
+                return conv(onp.concatenate([onp.ravel(r1), onp.ravel(r2)]))
+            if kind == "shared_hvp_twice":
+                r1 = ops["hvp"](x0, v)
+                s.yp()
+                g_ = autograd.grad(lambda t: (s.yp(), anp.sum(t * t))[1])(x0)  # an unrelated differentiation in between
+                s.yp()
+                r2 = ops["hvp"](x0, v * 2.0)
+                return conv(onp.concatenate([r1, r2, g_]))
+            r1 = ops["grad"](x0, a)
+            s.yp()
+            val, r2 = ops["vag"](x0 + 0.1, c=a)
+            return conv(onp.concatenate([r1, r2, [val]]))
     elif kind == "fwd_rev":
         def prog(s):
             def f(x):
@@ -203,7 +256,7 @@ def summ(r):
     return str(onp.frombuffer(bytes.fromhex(hx), dtype=dt).reshape(shape).tolist())
 
 
-SWEEP_PAIRS = [(("nested", 0.5), ("nested", 0.75)), (("nested_twice", 0.5), ("two_calls", 0.25)), (("nested", 0.5), ("grad1", 0.25)),
+SWEEP_PAIRS = [(("nested", 0.5), ("nested", 0.75)), (("shared_tjp", 0.5), ("shared_tjp", 0.75)), (("shared_hvp_twice", 0.5), ("shared_hvp_twice", 0.25)), (("nested_twice", 0.5), ("two_calls", 0.25)), (("nested", 0.5), ("grad1", 0.25)),
                (("nested3", 0.5), ("fwd_rev", 0.75)), (("hvp", 0.25), ("nested_jvp", 0.5))]
 
 
